@@ -25,7 +25,7 @@ LEVEL = 'exploration'
 CASES = {'quick': 480, 'thorough': 4800}
 NSHARDS = {'quick': 16, 'thorough': 32}
 
-CELLS = ['a', 'b', 'ab', '1', '2', '10', 'x y', 'q"t', "it's", 'a,b', 'É', 'z']
+CELLS = ['a', 'b', 'ab', '1', '2', '10', 'x y', 'q"t', "it's", 'a,b', 'É', 'z', '', '']
 NAMES_A = ['id', 'name', 'val', 'grp']
 NAMES_B = ['bk', 'bv', 'bw']
 
@@ -44,7 +44,7 @@ def norm_rows(rows):
 
 def gen_case(rng, i):
     for _try in range(30):
-        wa = rng.randrange(2, 5)
+        wa = rng.randrange(1, 5)
         A = [[rng.choice(CELLS) for _ in range(wa)] for _ in range(rng.randrange(1, 6))]
         feats = set()
         for b, name in enumerate(['where', 'order', 'distinct', 'top', 'join']):
@@ -54,7 +54,7 @@ def gen_case(rng, i):
         join = ('join' in feats and kind in ('select', 'update')) or kind == 'starjoin'
         B = None
         if join:
-            wb = rng.randrange(2, 4)
+            wb = rng.randrange(1, 4)
             B = [[rng.choice(CELLS) for _ in range(wb)] for _ in range(rng.randrange(1, 5))]
             for r in B:
                 if rng.random() < 0.8:
@@ -81,6 +81,8 @@ def gen_case(rng, i):
             q = g.gen_select({'except'} | ({'where', 'order', 'top'} & feats))
             if q.get('except') and len(q['except']) >= wa:
                 q['except'] = q['except'][:wa - 1]       # zero-width records have no CSV representation
+            if 'except' in q and not q['except']:
+                del q['except']
         elif kind == 'agg':
             kf = ['field', 'a', 0, 'var']
             q = g.gen_select(set())
